@@ -117,17 +117,6 @@ theorem strOf_drop (s : List Nat) (n : Nat) : (strOf s).drop n = strOf (s.drop n
 
 /-! ### `str.replace` with a one-character pattern is the model's `replChr` -/
 
-theorem replaceGo_single (p : Nat) (rep l : List Nat) :
-    replaceGo [p] rep 0 l = l.flatMap (fun x => if x = p then rep else [x]) := by
-  induction l with
-  | nil => rfl
-  | cons x t ih =>
-    simp only [replaceGo, List.isPrefixOf, List.length_singleton, Nat.sub_self, ih, List.flatMap_cons, Bool.and_true]
-    by_cases h : x = p
-    · subst h; simp
-    · have : (p == x) = false := by simp; exact fun e => h e.symm
-      simp [h, this]
-
 /-- `replChr` on one-byte-per-character strings, at the level of bytes -/
 def replB (b : UInt8) (r q : Bytes) : Bytes := q.flatMap (fun x => if x = b then r else [x])
 
